@@ -157,6 +157,12 @@ func parallelTLCRecords(paths []string, check func(res *Result, raw []byte)) *Re
 		}
 		res.NCandidates += n - len(r.Candidates)
 		res.Drift = append(res.Drift, r.Drift...)
+		for k, v := range r.Extra {
+			if n, ok := v.(int); ok {
+				prev, _ := res.Extra[k].(int)
+				res.Extra[k] = prev + n
+			}
+		}
 	}
 	return res
 }
